@@ -56,6 +56,8 @@ def run(prop, tier, seed, replay=None):
             raise C.Infra("configuration %s ran as %s" % (b, res.get("build")))
 
     known_d1 = 0
+    known_d30 = 0
+    d30_samples = []
     nlines = 0
     diverging = []
     nhist = 0
@@ -100,13 +102,32 @@ def run(prop, tier, seed, replay=None):
         def load(b, hs):
             pref = os.path.join(sc, "c20_%s_%s_%d" % (fam, b, hs))
             res = json.load(open(pref + ".res.json"))
-            texts = [o["impl"].get("text") for o in S.load_lines(pref + ".ops.jsonl")]
+            lines = S.load_lines(pref + ".ops.jsonl")
+            texts = [o["impl"].get("text") for o in lines]
+            vals = [o["impl"].get("val") for o in lines]
+            vals0 = [o["impl"].get("val0") for o in lines]
             fails = sorted((f["hist"], f["property"], f["kind"]) for f in res["failures"])
-            return texts, fails, res
-        t0, f0, r0 = load(configs[0][0], configs[0][2])
+            return texts, fails, res, vals, lines, vals0
+        t0, f0, r0, v0, l0, z0 = load(configs[0][0], configs[0][2])
         expr_cases += len(t0)
         for b, bd, hs in configs[1:]:
-            t1, f1, r1 = load(b, hs)
+            t1, f1, r1, v1, l1, z1 = load(b, hs)
+            if v1 != v0:
+                # the values of the deferred expressions, bit for bit
+                ks = [i for i, (x, y) in enumerate(zip(v0, v1)) if x != y]
+                zero_sign_only = all(z0[i] == z1[i] for i in ks)
+                if zero_sign_only and b != configs[0][0]:
+                    known_d30 += 1      # KNOWN_FINDINGS.json D30: the compiled build loses / keeps the sign of a float zero
+                    for i in ks:
+                        smp = {"case": {k: x for k, x in l0[i].items() if k not in ("impl", "hist", "vals") or k == "vals"},
+                               configs[0][0]: v0[i], b: v1[i]}
+                        if smp not in d30_samples:
+                            d30_samples.append(smp)
+                else:
+                    k = next(i for i in ks if z0[i] != z1[i]) if not zero_sign_only else ks[0]
+                    diverging.append({"family": fam, "config": [b, hs], "base": [configs[0][0], configs[0][2]],
+                                      "first_value_difference": [v0[k], v1[k]],
+                                      "case": {kk: x for kk, x in l0[k].items() if kk not in ("impl", "hist")}})
             if t1 != t0 or f1 != f0:
                 k = next((i for i, (x, y) in enumerate(zip(t0, t1)) if x != y), None)
                 diverging.append({"family": fam, "config": [b, hs], "base": [configs[0][0], configs[0][2]],
@@ -118,6 +139,8 @@ def run(prop, tier, seed, replay=None):
 
     if known_d1:
         v.failing_input({"known": "D1", "kind": "order-dependent"}, {})
+    if known_d30:
+        v.failing_input({"known": "D30", "kind": "zero-sign-differs-between-builds"}, {"samples": d30_samples[:3]})
     for d in diverging[:3]:
         if "ops" in d:
             v.failing_input({"kind": "configurations-differ", "detail": {k: x for k, x in d.items() if k != "ops"}},
@@ -134,6 +157,7 @@ def run(prop, tier, seed, replay=None):
                                "each configuration's transcript is compared with the first one and with the model" % seeds,
                        "samples": [{"configurations": [[b, hs] for b, bd, hs in configs]}],
                        "traces_validated_against_impl": nlines, "configurations": len(configs),
-                       "histories_order_dependent_D1": known_d1, "diverging": len(diverging), "lean_problems": lean_problems})
+                       "histories_order_dependent_D1": known_d1, "configurations_with_zero_sign_difference_D30": known_d30,
+                       "D30_samples": d30_samples[:3], "diverging": len(diverging), "lean_problems": lean_problems})
     v.assumptions = ["the generator is deterministic for a given VERIF_SEED (no iteration over sets)"]
     return v.finish()
